@@ -147,6 +147,17 @@ func itemName(r *rand.Rand, mode int) []byte {
 // batch: 0 untouched, 1 long titles and user names (article-list entries longer than 512 bytes), 2 palette texts,
 // 3 line-structured texts, 4 big bodies, 5 everything mixed.
 func decorate(s *script, r *rand.Rand, idx int) {
+	// every second script restarts the store (reload) right after its first item was created, while that item is
+	// still empty, so that posting to / creating below an item that was saved empty is exercised in every batch
+	if idx%2 == 1 {
+		for i, st := range s.Steps {
+			if st["op"] == "mkcat" || st["op"] == "mkbundle" {
+				rest := append([]map[string]any{{"op": "reload"}}, s.Steps[i+1:]...)
+				s.Steps = append(s.Steps[:i+1:i+1], rest...)
+				break
+			}
+		}
+	}
 	mode := idx % 6
 	if mode == 0 {
 		return
